@@ -472,7 +472,15 @@ def _inv_struct_aggregate(s):
     ft = s.field_types
     # after i iterations over field_types[1:], the first i+1 fields are folded (none if there is no field at all)
     n = ITE(LEN(ft) == 0, 0, s.i + 1)
-    return {"prefix-folded": SETEQ(D(s.bls), SymSet(st.sfold_f(st.lmap_f(ft.arr), st.amap_f(ft.arr), st._i(n))))}
+    return {"prefix-folded": SETEQ(D(_accumulator(s)), SymSet(st.sfold_f(st.lmap_f(ft.arr), st.amap_f(ft.arr), st._i(n))))}
+
+
+def _accumulator(s):
+    """the loop-carried BitLengthSet of the loop, whatever the code calls it"""
+    accs = [v for v in s.carried.values() if isinstance(v, Obj) and v.cls.name == "BitLengthSet"]
+    if len(accs) != 1:
+        raise speclib.V.EngineLimit("expected exactly one loop-carried BitLengthSet, found %d" % len(accs))
+    return accs[0]
 
 
 def _struct_aggregate_triggers(s):
